@@ -55,6 +55,12 @@ func checkC07(c *Ctx) {
 	c.callArgRule(p, "C07.labels", "key = LabeledExpand(secret, \"key\", key_schedule_context, Nk)", ks, suiteLX, `"key"`, map[int]string{1: secretPat, 3: ctxPat, 4: `.*KeySize.*`})
 	c.callArgRule(p, "C07.labels", "base_nonce = LabeledExpand(secret, \"base_nonce\", key_schedule_context, Nn)", ks, suiteLX, `"base_nonce"`, map[int]string{1: secretPat, 3: ctxPat, 4: `.*NonceSize.*`})
 	c.callArgRule(p, "C07.labels", "exporter_secret = LabeledExpand(secret, \"exp\", key_schedule_context, Nh)", ks, suiteLX, `"exp"`, map[int]string{1: secretPat, 3: ctxPat, 4: `.*ExtractSize.*`})
+	// ... and each derived value lands in the field of the context that later uses it under that name (the
+	// context is built with a positional literal: reordering the declarations silently swaps the slots)
+	for _, fb := range [][2]string{{"exporterSecret", "exp"}, {"key", "key"}, {"baseNonce", "base_nonce"}} {
+		c.fieldStoreRule(p, "C07.labels", "the context field "+fb[0]+" holds LabeledExpand(secret, \""+fb[1]+"\", ...)", ks, fb[0], `call:[^#]*labeledExpand\(.*"`+fb[1]+`".*\)(#0)?`)
+	}
+	c.fieldStoreRule(p, "C07.labels", "the context field secret holds LabeledExtract(shared_secret, \"secret\", psk)", ks, "secret", `call:[^#]*labeledExtract\(.*"secret".*\)(#0)?`)
 	// the three Expand calls are the only labelled expansions of the key schedule, the three extracts the only extractions
 	c.callCountRule(p, "C07.labels", "key schedule has exactly the RFC's 3 LabeledExtract and 3 LabeledExpand calls", ks, map[string]int{suiteLE: 3, suiteLX: 3})
 	c.callArgRule(p, "C07.labels", "Export = LabeledExpand(exporter_secret, \"sec\", exporter_context, L)", p.Func("hpke", "encdecContext", "Export"), suiteLX, `"sec"`,
